@@ -61,7 +61,7 @@ TGetSnapshot ==
 TPull ==
   /\ IsEvent("Pull")
   /\ E.parent = sy[E.r].tb
-  /\ (E.res = "version") = (sy[E.r].tb < Len(chain))
+  /\ (E.res = "version") = (sy[E.r].tb < Len(chain) /\ sy[E.r].tb >= snap.trim)
   /\ (E.res = "version" => E.ver = sy[E.r].tb + 1)
   /\ SyncPull(E.r)
 
@@ -155,12 +155,14 @@ TExpire ==
         /\ Expire(E.r, SubSeq(new, n + 1, Len(new)))
   /\ Post(E.r)
 
+TTrim == IsEvent("Trim") /\ ServerTrim(E.n)
+
 TRebuildLocal == IsEvent("Rebuild") /\ Rebuild(E.r, E.renumber) /\ Post(E.r)
 
 TNext ==
   \/ TReset \/ TEdit \/ TStart \/ TGetSnapshot \/ TPull \/ TPush \/ TPushLost
   \/ TSnapshot \/ TSnapshotLost \/ TFault \/ TCommit \/ TRebuild \/ TDone \/ TObserve
-  \/ TEditFail \/ TInstallWS \/ TGetUndo \/ TUndo \/ TUndoFail \/ TRebuildLocal \/ TExpire
+  \/ TEditFail \/ TInstallWS \/ TGetUndo \/ TUndo \/ TUndoFail \/ TRebuildLocal \/ TExpire \/ TTrim
 
 TInit == Init /\ l = 1
 TSpec == TInit /\ [][TNext]_tvars
